@@ -66,6 +66,7 @@ class ShareMonitor:
         # per party, in program order: ('rand', origin, [own shares]) for every _randoms result and
         # ('open', origin, threshold, [own shares handed to Runtime.output]) -- prime fields only, else None entries
         self.events = [[] for _ in range(m)]
+        self.zero_shares = [[] for _ in range(m)]      # (origin, p, uci, [own shares of the n zero sharings]) per call
         self.nkeys = [dict() for _ in range(m)]
         self.record_results = record_results
 
@@ -217,7 +218,13 @@ class ShareMonitor:
         def share_zero(field, m, i, prfs, uci, n):
             fr = sys._getframe(1)
             mon.events[i].append(['zero', fr.f_code.co_name, n, id(fr)])
-            return o_zero(field, m, i, prfs, uci, n)
+            res = o_zero(field, m, i, prfs, uci, n)
+            try:
+                if isinstance(field.modulus, int):
+                    mon.zero_shares[i].append((fr.f_code.co_name, int(field.modulus), bytes(uci), [int(v.value) for v in res]))
+            except Exception:
+                pass
+            return res
 
         def np_share_zero(field, m, i, prfs, uci, n):
             fr = sys._getframe(1)
